@@ -1019,6 +1019,68 @@ def quic_rogue_flights():
     return out
 
 
+def quic_cid_authentication():
+    """RFC 9000 7.3: the connection IDs seen on the wire and whether a Retry took place are
+    authenticated through the transport parameters.  A peer that holds valid credentials but whose
+    transport parameters disagree with the packets exchanged (an on-path box rewrote connection IDs
+    or answered a Retry on the other side's behalf) must not be reported as a completed handshake.
+    Returns [(case, HandshakeCompleted emitted?, termination code)]."""
+    from vlib import quicadv as Q
+
+    def ext_replace(exts, t, data):
+        return [(a, data if a == t else b) for a, b in exts]
+
+    out = []
+    server_cases = {
+        "valid_control": lambda a: a.tp,
+        "odcid_mismatch": lambda a: Q.tp_replace(a.tp, Q.TP_ODCID, bytes(8)),
+        "odcid_missing": lambda a: Q.tp_without(a.tp, Q.TP_ODCID),
+        "odcid_is_current_dcid": lambda a: Q.tp_replace(a.tp, Q.TP_ODCID, a.scid),
+        "iscid_mismatch": lambda a: Q.tp_replace(a.tp, Q.TP_ISCID, bytes(8)),
+        "iscid_missing": lambda a: Q.tp_without(a.tp, Q.TP_ISCID),
+        "iscid_is_odcid": lambda a: Q.tp_replace(a.tp, Q.TP_ISCID, a.odcid),
+        # the server believes it sent a Retry; the client never saw one
+        "retry_scid_without_retry": lambda a: a.tp + [(Q.TP_RETRY_SCID, a.scid)],
+        "retry_scid_is_odcid_without_retry": lambda a: a.tp + [(Q.TP_RETRY_SCID, a.odcid)],
+        "retry_scid_empty_without_retry": lambda a: a.tp + [(Q.TP_RETRY_SCID, b"")],
+    }
+    for case, tp in server_cases.items():
+        for version in (1, 2):
+            a = Q.QuicServerAdversary(cfg={"version": VER[version]})
+            a.legal("SH")
+            builders = [lambda: a.ee(tp_items=tp(a)), lambda: a.make("CERT"), lambda: a.make("CV"), lambda: a.make("FIN")]
+            for b in builders:
+                if a.victim.closing:
+                    break
+                raw = b()
+                a.send_tls("handshake", raw)
+                if not a.victim.closing:
+                    a.accepted(raw)
+            a.victim.drive_to_end(max_timers=3)
+            out.append(("client/%s/v%d" % (case, version), a.victim.handshake_completed,
+                        a.victim.terminated.error_code if a.victim.terminated else None))
+    client_cases = {
+        "valid_control": lambda a: a.tp,
+        "iscid_mismatch": lambda a: Q.tp_replace(a.tp, Q.TP_ISCID, bytes(8)),
+        "iscid_missing": lambda a: Q.tp_without(a.tp, Q.TP_ISCID),
+        "iscid_is_dcid": lambda a: Q.tp_replace(a.tp, Q.TP_ISCID, a.odcid),
+        "odcid_sent_by_client": lambda a: a.tp + [(Q.TP_ODCID, a.odcid)],
+        "retry_scid_sent_by_client": lambda a: a.tp + [(Q.TP_RETRY_SCID, a.odcid)],
+    }
+    for case, tp in client_cases.items():
+        for version in (1, 2):
+            a = Q.QuicClientAdversary(cfg={"version": VER[version]})
+            m = a.ch()
+            m.extensions = ext_replace(m.extensions, R.EXT_QUIC_TRANSPORT_PARAMETERS, Q.enc_tp(tp(a)))
+            a.hello(raw=m.encode())
+            if not a.victim.closing and a.keys.get("1rtt") is not None:
+                a.legal("finished")
+            a.victim.drive_to_end(max_timers=3)
+            out.append(("server/%s/v%d" % (case, version), a.victim.handshake_completed,
+                        a.victim.terminated.error_code if a.victim.terminated else None))
+    return out
+
+
 def _adv_job(job):
     kt, name = job
     return adversary_runs(kt, name)
@@ -1094,6 +1156,20 @@ def part_auth(ctx, workers):
                           "(no verified CertificateVerify, no PSK)" % case,
                           {"part": "auth_quic_rogue", "case": case})
     n_adv += n_rogue
+    for case, done, code in quic_cid_authentication():
+        n_adv += 1
+        role, name, _ = case.split("/")
+        o = ("quic_cid_auth", role, name, done, None if code is None else int(code))
+        outcomes[o] = outcomes.get(o, 0) + 1
+        if name == "valid_control":
+            if not done:
+                raise core.HarnessError("quicadv cannot complete a valid handshake (%s)" % case)
+        elif done:
+            ctx.violation({"monitor": "completed_despite_connection_id_mismatch", "role": role, "case": name},
+                          "a real %s QuicConnection emitted HandshakeCompleted although the peer's transport parameters "
+                          "disagree with the connection IDs / Retry actually seen on the wire (%s; RFC 9000 7.3 requires "
+                          "a connection error)" % (role, case),
+                          {"part": "auth_quic_cid", "case": case})
     if len(outcomes) < 6 and not ctx.violations:
         raise core.HarnessError("auth vacuous: %r" % outcomes)
     ctx.part("auth", evaluations=len(specs) + n_adv, transitions=len(specs) + n_adv,
